@@ -331,29 +331,54 @@ func RepopulatePhysicalExpressionFunctions(expr physical.Expression) (physical.E
 				return expr
 			}
 
+			// Just like when typechecking, the last matching descriptor is used.
+			found := false
 		descriptorLoop:
 			for _, descriptor := range details.Descriptors {
-				if len(descriptor.ArgumentTypes) != len(receivedDescriptor.ArgumentTypes) {
-					continue descriptorLoop
-				}
 				if descriptor.Strict != receivedDescriptor.Strict {
 					continue descriptorLoop
 				}
-				if !descriptor.OutputType.Equals(receivedDescriptor.OutputType) {
-					continue descriptorLoop
-				}
-				for j := range descriptor.ArgumentTypes {
-					if !descriptor.ArgumentTypes[j].Equals(receivedDescriptor.ArgumentTypes[j]) {
+				if descriptor.TypeFn != nil {
+					if len(receivedDescriptor.ArgumentTypes) != 0 {
 						continue descriptorLoop
+					}
+					// Descriptors with a type function have no declared signature, so they are matched
+					// by applying the type function to the argument types of this call.
+					argTypes := make([]octosql.Type, len(expr.FunctionCall.Arguments))
+					for j := range argTypes {
+						argTypes[j] = expr.FunctionCall.Arguments[j].Type
+						if descriptor.Strict {
+							argTypes[j] = octosql.NonNullable(argTypes[j])
+						}
+					}
+					outputType, ok := descriptor.TypeFn(argTypes)
+					// The type of a call of a strict function with nullable arguments is nullable too.
+					if !ok || !(outputType.Equals(expr.Type) || octosql.TypeSum(outputType, octosql.Null).Equals(expr.Type)) {
+						continue descriptorLoop
+					}
+				} else {
+					if len(descriptor.ArgumentTypes) != len(receivedDescriptor.ArgumentTypes) {
+						continue descriptorLoop
+					}
+					if !descriptor.OutputType.Equals(receivedDescriptor.OutputType) {
+						continue descriptorLoop
+					}
+					for j := range descriptor.ArgumentTypes {
+						if !descriptor.ArgumentTypes[j].Equals(receivedDescriptor.ArgumentTypes[j]) {
+							continue descriptorLoop
+						}
 					}
 				}
 				expr.FunctionCall.FunctionDescriptor.TypeFn = descriptor.TypeFn
 				expr.FunctionCall.FunctionDescriptor.Function = descriptor.Function
+				found = true
+			}
+			if found {
 				return expr
 			}
 
 			log.Printf("Unknown function signature, rejecting predicate: %s", expr.FunctionCall.Name)
-			ok = false
+			outOk = false
 			return expr
 		},
 	}).TransformExpr(expr)
